@@ -93,7 +93,7 @@ def ctx_value(rng, op, policy_typed, matching=None):
         if r < 0.3 and isinstance(policy_typed, str):
             base = policy_typed
             if "Like" in op:
-                base = base.replace("*", rng.choice(["", "x", "xyz/1"])).replace("?", rng.choice(["q", "/"]))
+                base = base.replace("*", rng.choice(["", "", "x", "xyz/1"])).replace("?", rng.choice(["q", "/", ""]))
             return base
         if r < 0.45 and isinstance(policy_typed, str):
             return policy_typed.swapcase()
